@@ -20,7 +20,7 @@ META = {
     'level_note': 'Trusted: Lean kernel (standard axioms only, no bv_decide); the hand model of list.c is validated on every run against the real list.c built with ASan '
                   '(corpus of past failures; structured random histories to length 200 over 8 nodes x 3 lists x 4 iterators biased to removal of the last/only node then any insertion, '
                   'iterators past the end, equal keys; every call from every reachable state of a 3-node x 2-list x 1-iterator scope to the fixed point; thorough tier adds all histories '
-                  'of length <= 4 of that scope and two larger state spaces) - that tie is sampling, not proof. The Python oracle used for gating is checked against the Lean spec on every run. '
+                  'of length <= 4 of that scope and two larger state spaces) - that tie is sampling, not proof. Lists beyond the 8-node pool (255..70000 members, around every width a hidden member counter could have) are run on the real code only, against the Python sequence oracle, not through the Lean model. The Python oracle used for gating is checked against the Lean spec on every run. '
                   'Distinct C objects are distinct ids; the comparator is a pure total function of the two nodes; a dereference of a non-node pointer is an error result of the model '
                   '(proved unreachable in scope), not given a meaning.',
     'design_ref': '§6 C09',
@@ -499,6 +499,197 @@ def line_coverage(ctx, hs):
     return {'file': 'librfn/list.c', 'lines_executed': ran, 'lines_not_executed': missed}
 
 
+# ------------------------------------------------------------------ large lists (C side only, Python oracle; not run through the Lean model)
+BIG_POOL = 70016
+BIG_SIZES = [255, 256, 257, 65535, 65536, 65537, 70000]      # around every width a hidden member counter could have
+M64 = (1 << 64) - 1
+
+
+# regression scenarios, run first: a 16-bit member counter substituted for the head test wraps at 65536 members
+BIG_CORPUS = [
+    ['reset asc', 'growto ips 70000', 'extract all'],
+    ['reset eq', 'growto i 65535', 'obs', 'growto p 65536', 'obs', 'growto s 65537', 'obs', 'iremove last', 'iremove first', 'obs', 'extract all', 'obs'],
+]
+
+
+def big_hash(ids):
+    h = 0
+    for x in ids:
+        h = (h * 31 + x + 1) & M64
+    return h
+
+
+def big_concretize(lines):
+    """symbolic scenario -> (lines for harness/h_list_big.c, expected outputs), or None when a line is outside the scope.
+    The oracle is the abstract sequence: one Python list of node ids (nodes are handed out in ascending id order)."""
+    from collections import deque
+    xs, nxt, asc, out, exp = deque(), 0, True, [], []
+    def where(w, upto_len):
+        n = len(xs)
+        if w == 'first':
+            return 0
+        if w == 'last':
+            return n - 1
+        if w == 'mid':
+            return n // 2
+        if w == 'end' and upto_len:
+            return n
+        return None
+    for line in lines:
+        w = line.split()
+        op = w[0]
+        if op == 'reset' and len(w) == 2 and w[1] in ('asc', 'eq'):
+            xs, nxt, asc = deque(), 0, w[1] == 'asc'
+            out.append(line); exp.append('ok')
+        elif op == 'growto' and len(w) == 3:
+            pat, target = w[1], int(w[2])
+            cnt = target - len(xs)
+            if cnt < 0 or nxt + cnt > BIG_POOL or not pat or set(pat) - set('ips'):
+                return None
+            for k in range(cnt):
+                if pat[k % len(pat)] == 'p':
+                    xs.appendleft(nxt)          # push: new head (asc: its key is below every key in the list)
+                else:
+                    xs.append(nxt)              # insert: new tail; sorted insert: after all smaller AND equal keys = new tail
+                nxt += 1
+            out.append(f'grow {pat} {cnt}'); exp.append('ok')
+        elif op == 'obs':
+            out.append('obs')
+            exp.append(f'empty={0 if xs else 1} peek={xs[0] if xs else -1} n={len(xs)} hash={big_hash(xs)} dirty=0')
+        elif op == 'contains' and len(w) == 2:
+            if w[1] == 'free':
+                if nxt >= BIG_POOL:
+                    return None
+                n, r = nxt, 0
+            else:
+                i = where(w[1], False)
+                if i is None or not xs:
+                    return None
+                n, r = xs[i], 1
+            out.append(f'contains {n}'); exp.append(str(r))
+        elif op == 'extract' and len(w) == 2:
+            cnt = len(xs) + 1 if w[1] == 'all' else int(w[1])
+            got = [xs.popleft() if xs else -1 for _ in range(cnt)]
+            out.append(f'extract {cnt}')
+            exp.append(f'n={sum(1 for g in got if g >= 0)} hash={big_hash(got)}')
+        elif op == 'iremove' and len(w) == 2:
+            i = where(w[1], False)
+            if i is None or not xs:
+                return None
+            del xs[i]
+            out.append(f'iremove {i}'); exp.append(str(xs[i] if i < len(xs) else -1))
+        elif op == 'iinsert' and len(w) == 2:
+            i = where(w[1], True)
+            if i is None or nxt >= BIG_POOL or (asc and i != len(xs)):
+                return None                     # asc keys: only at the end, so that the list stays sorted
+            xs.insert(i, nxt); nxt += 1
+            out.append(f'iinsert {i}'); exp.append('ok')
+        elif op == 'remove' and len(w) == 2:
+            i = where(w[1], False)
+            if i is None or not xs:
+                return None
+            n = xs[i]; del xs[i]
+            out.append(f'remove {n}'); exp.append('1')
+        else:
+            return None
+    return out, exp
+
+
+def big_scenario(rng, sizes=BIG_SIZES):
+    """build one list to each size in turn by a repeating mix of insert / push / sorted insert, observing it at every size
+    (empty, peek, full traversal, contains first/last/free), removing and re-adding around the size through iterators,
+    then extract everything"""
+    mode = rng.choice(['asc', 'eq'])
+    pat = rng.choice(['i', 's', 'p', 'is', 'ips', 'sp', 'ssi', 'pis', ''.join(rng.choice('ips') for _ in range(rng.range(2, 6)))])
+    h = [f'reset {mode}']
+    for size in sizes:
+        h.append(f'growto {pat} {size}')
+        h += ['obs', 'contains first', 'contains last', 'contains free']
+        c = rng.below(5)
+        if c == 0:
+            h += [f'iremove {rng.choice(["first", "mid", "last"])}', 'obs', f'growto {pat} {size}', 'obs']
+        elif c == 1:
+            h += [f'remove {rng.choice(["first", "mid", "last"])}', 'iinsert end', 'obs']
+        elif c == 2:
+            h += ['extract 1', 'obs', f'growto {pat} {size}', 'obs']
+        elif c == 3:
+            h += ['iremove last', 'iinsert end', 'contains last', 'obs']
+    h += ['extract all', 'obs', f'growto {pat} 3', 'obs', 'extract all']
+    return h
+
+
+def big_harness(ctx):
+    R = vlib.REPO
+    exe, log = ctx.cc('h_list_big', [os.path.join(vlib.VERIF, 'harness/h_list_big.c'), R + '/librfn/list.c'])
+    if not exe:
+        raise vlib.Infra('large-list harness does not compile against the repo: ' + log[-1500:])
+    return exe
+
+
+def big_run(exe, scenarios):
+    """-> per scenario (expected, observed)"""
+    conc = [big_concretize(s) for s in scenarios]
+    text = ''.join('\n'.join(c[0]) + '\n--\n' for c in conc)
+    got = vlib.split_histories(vlib.run_exe([exe], text, 300))
+    return [(c[1], got[i] if i < len(got) else ['!! missing (harness died earlier)']) for i, c in enumerate(conc)]
+
+
+def big_lists(ctx, rng, count):
+    """large-list family: implementation vs the abstract sequence; a mismatch is a violation whose replay is the compact scenario"""
+    import time
+    t0 = time.time()
+    exe = big_harness(ctx)
+    scenarios = [list(sc) for sc in BIG_CORPUS] + [big_scenario(rng) for _ in range(count)]
+    res = big_run(exe, scenarios)
+    ok = 0
+    for sc, (exp, got) in zip(scenarios, res):
+        ctx.count(('big',) + tuple(sc))
+        if got == exp:
+            ok += 1
+            continue
+        if got and got[0].startswith('!! missing'):
+            exp, got = big_run(exe, [sc])[0]
+            if got == exp:
+                ok += 1
+                continue
+        def fails(cand):
+            if not cand or not cand[0].startswith('reset') or big_concretize(cand) is None:
+                return False
+            e, g = big_run(exe, [cand])[0]
+            return e != g
+        small = vlib.ddmin(sc, fails, max_tests=60)
+        exp, got = big_run(exe, [small])[0]
+        k = vlib.diff_streams(got, exp)
+        conc = big_concretize(small)[0]
+        ctx.violation({'obligation': 'large lists: implementation vs abstract sequence (C side only, Python oracle)', 'family': 'big-list',
+                       'ops': small, 'concrete_ops': conc, 'first_difference_at_output': k,
+                       'failing_op': conc[k] if k is not None and k < len(conc) else None,
+                       'expected': exp[max(0, (k or 0) - 1):(k or 0) + 2], 'observed': got[max(0, (k or 0) - 1):(k or 0) + 2],
+                       'how_to_rerun': f'./check {ctx.pid} --replay <this file>'},
+                      key='big:' + ' / '.join(small))
+        break
+    ctx.cov['large_lists'] = {'what': 'one list built to 255/256/257/65535/65536/65537/70000 members by a repeating mix of insert, push and sorted insert '
+                                      '(ascending or all-equal keys), observed at every size (empty, peek, full traversal with order hash, contains of first/last/free node, '
+                                      'dirty free nodes), removal/insertion through iterators and extract/remove at those sizes, then extract-all with order check; '
+                                      'real list.c vs the abstract sequence (Python); not run through the Lean model',
+                              'scenarios': len(scenarios), 'agreed': ok, 'wall_s': round(time.time() - t0, 2)}
+    ctx.sample({'large_list_scenario': scenarios[0][:14], 'lines': len(scenarios[0])})
+    return ok
+
+
+def big_replay(ctx, r):
+    exe = big_harness(ctx)
+    sc = r['ops']
+    if big_concretize(sc) is None:
+        print('replay scenario is outside the scope'); return 2
+    exp, got = big_run(exe, [sc])[0]
+    k = vlib.diff_streams(got, exp)
+    print('scenario      :', sc)
+    print('implementation:', got[:40]); print('expected      :', exp[:40])
+    print('SAME' if k is None else f'DIFFER at output {k}')
+    return 0 if k is None else 1
+
+
 def histogram(hs):
     d = {}
     for h in hs:
@@ -589,6 +780,8 @@ def run(ctx):
         out_of_scope_stream(ctx, exe, rng, 40 if quick else 400)
     if not quick:
         ctx.cov['line_coverage_of_random_histories'] = line_coverage(ctx, hs)
+    # lists far larger than the 8-node pool (C side only): every tier; more scenarios in the thorough tier and when something broke
+    big_lists(ctx, rng, 4 if quick and not (ctx.broken or ctx.violations) else 24)
     for h in hs:
         ctx.count(tuple(h), nontrivial=len(h) >= 3)
     for h in exh:
@@ -609,4 +802,8 @@ def run(ctx):
 
 
 def replay(ctx, path):
+    import json
+    r = json.load(open(path))
+    if r.get('family') == 'big-list':
+        return big_replay(ctx, r)
     return vlib.replay_ops(ctx, path, 'list', [harness(ctx)], spec=spec)
